@@ -65,11 +65,11 @@ theorem C14_model {α : Type} [DecidableEq α] (cx : Ctx α) (htriv : ∀ s, cx.
         ls[i].drop (leftW + gap).toNat = (colLines cx r rightW (o.withDefaults cx).lineSep).getD i [] :=
   insertTwoColumnsOpts_triv_width cx htriv hsp ed pos l r gap width pct o hne hg
 
-/-- on arbitrary code-point texts the operation returns normally (gap ≥ 0) and never reaches the
+/-- on arbitrary code-point texts the operation returns normally (any gap) and never reaches the
 explicit panic of the source, whatever the percentage -/
-theorem C14_total (ed : Editor Int) (p : Int) (l r : List Int) (g w : Int) (pct : Pct) (o : Options Int)
-    (hg : 0 ≤ g) : ∃ x, ed.insertTwoColumnsOpts cxA p l r g w pct o = .ok x :=
-  insertTwoColumnsOpts_total_A ed p l r g w pct o hg
+theorem C14_total (ed : Editor Int) (p : Int) (l r : List Int) (g w : Int) (pct : Pct) (o : Options Int) :
+    ∃ x, ed.insertTwoColumnsOpts cxA p l r g w pct o = .ok x :=
+  insertTwoColumnsOpts_total_A_any ed p l r g w pct o
 
 /-- both texts empty: nothing is inserted -/
 theorem C14_empty {α : Type} [DecidableEq α] (cx : Ctx α) (ed : Editor α) (p g w : Int) (pct : Pct)
